@@ -324,6 +324,11 @@ def run_check(modname, tier=None, seed=None, replay_path=None):
     for r in reports:
         for v in r['violations']:
             k = (pid, v['key'])
+            if k not in known and '/' in v['key']:
+                # a known finding may be keyed by the originating history pattern alone: '*/via-<pattern>'
+                k2 = (pid, '*/' + v['key'].split('/', 1)[1])
+                if k2 in known:
+                    k = k2
             if k in known:
                 n_known += 1
                 if k not in known_printed:
